@@ -172,6 +172,8 @@ func C20(c *core.Ctx) {
 	// ---- R20.4 every node gets its own list storage
 	c20FreshLists(c, pkg)
 	c20Round4(c, pkg)
+	c20TimeoutNode(c, pkg)
+	c20ReplyDeadline(c)
 
 	// ---- R20.2 onData gates
 	if od := c.Fn("R20.2", "std/engine/basic", "Engine", "onData"); od != nil {
@@ -1140,4 +1142,142 @@ func c20Round4(c *core.Ctx, pkg string) {
 			c.Decide(onT && onC, "R20.7", "nack-honours-implicit-digest", p.Pos(on.Pos()), "onNack strips a trailing implicit digest for the node lookup and compares the entries' digests, like Express and onData", "Express files an Interest that ends in an implicit digest under the name without it and onData compares the entry's digest, but onNack looks up the full Nacked name and resolves every entry of the node: a Nack for /N resolves the pending /N/sha256digest=X Interests (their Data then finds nothing pending) and a Nack for /N/sha256digest=X is dropped as unknown")
 		}
 	}
+}
+
+// c20TimeoutNode — R20.8: the timeout of an expressed Interest resolves the entries of the
+// node it was filed in. The closure handed to the timer either keeps that node (a captured
+// variable) or, if it looks the node up again by name, the engine's pending-Interest trie
+// must be the same object for the whole life of the engine (stored only by the
+// constructor): a trie replaced in between (at Stop) makes the lookup miss, and the
+// Interests pending at that moment are never resolved — not by Data, Nack or timeout.
+func c20TimeoutNode(c *core.Ctx, pkg string) {
+	p := c.P
+	ex := c.Fn("R20.8", "std/engine/basic", "Engine", "Express")
+	if ex == nil {
+		return
+	}
+	looksUp := false
+	for _, cl := range core.WithClosures(ex) {
+		if cl == ex {
+			continue
+		}
+		// closures that sweep a node's list: they call SetValue
+		sweeps := false
+		core.InstrsDeep(cl, func(in ssa.Instruction) {
+			if ci, ok := in.(ssa.CallInstruction); ok {
+				if id, okID := core.Callee(ci.Common()); okID && id.Name == "SetValue" {
+					sweeps = true
+				}
+			}
+		})
+		if !sweeps {
+			continue
+		}
+		core.InstrsDeep(cl, func(in ssa.Instruction) {
+			if ci, ok := in.(ssa.CallInstruction); ok {
+				if id, okID := core.Callee(ci.Common()); okID && (id.Name == "ExactMatch" || id.Name == "PrefixMatch" || id.Name == "MatchAlways") {
+					r, _ := core.CallArgs(ci.Common())
+					if _, isPit := core.FieldOf(r, "pit"); isPit {
+						looksUp = true
+					}
+				}
+			}
+		})
+	}
+	var stores []string
+	for _, fn := range p.FuncsIn(pkg) {
+		if strings.HasSuffix(p.File(fn.Pos()), "_test.go") {
+			continue
+		}
+		core.Instrs(fn, func(in ssa.Instruction) {
+			if fa, _, ok := storeToField(in, "Engine", "pit"); ok {
+				if _, fresh := core.Strip(fa.X).(*ssa.Alloc); !fresh {
+					stores = append(stores, core.FuncName(fn)+" at "+c.Pos(in))
+				}
+			}
+		})
+	}
+	c.Decide(!looksUp || len(stores) == 0, "R20.8", "timeout-resolves-its-own-node", p.Pos(ex.Pos()), "the timeout closure keeps its node, or the trie is never replaced", "the timeout of an expressed Interest finds its node by looking the name up in the engine's trie again, and the trie is replaced while the engine lives ("+strings.Join(stores, "; ")+"): for the Interests pending at that moment the lookup misses — they are resolved neither by Data nor Nack nor timeout")
+}
+
+// c20ReplyDeadline — R20.9: the deadline of an incoming Interest is its arrival plus its
+// own lifetime whenever it carries one. In onInterest every constant duration that can
+// reach Time.Add (the default lifetime) does so only over an edge asserting that
+// Lifetime() is nil: an Interest with a lifetime — zero included — is never given the
+// default, under which a reply would still be transmitted seconds after the Interest
+// expired at the forwarder.
+func c20ReplyDeadline(c *core.Ctx) {
+	p := c.P
+	oi := c.Fn("R20.9", "std/engine/basic", "Engine", "onInterest")
+	if oi == nil {
+		return
+	}
+	absent := &core.Atom{Name: "Lifetime() == nil", Match: func(cond ssa.Value) (int, int) {
+		op, x, y, ok := core.Cmp(cond)
+		if !ok || (op != token.EQL && op != token.NEQ) {
+			return 0, 0
+		}
+		if core.IsNilConst(x) {
+			x, y = y, x
+		}
+		if !core.IsNilConst(y) {
+			return 0, 0
+		}
+		cl, isCall := core.Strip(x).(*ssa.Call)
+		if !isCall || !cl.Call.IsInvoke() || cl.Call.Method.Name() != "Lifetime" {
+			return 0, 0
+		}
+		return core.Iff(op == token.EQL)
+	}}
+	cut, _ := core.CutEdges(oi, pos(absent))
+	nAdd, nConst := 0, 0
+	bad := ""
+	entry := oi.Blocks[0]
+	reach := func(b *ssa.BasicBlock) []*ssa.BasicBlock {
+		if b == entry {
+			return []*ssa.BasicBlock{entry}
+		}
+		return core.ReachAvoiding(oi, entry, map[*ssa.BasicBlock]bool{b: true}, cut)
+	}
+	core.Instrs(oi, func(in ssa.Instruction) {
+		ci, ok := in.(*ssa.Call)
+		if !ok {
+			return
+		}
+		cal := ci.Call.StaticCallee()
+		if cal == nil || cal.Name() != "Add" || cal.Pkg == nil || cal.Pkg.Pkg.Path() != "time" || len(ci.Call.Args) != 2 {
+			return
+		}
+		nAdd++
+		seen := map[ssa.Value]bool{}
+		var walk func(v ssa.Value, at *ssa.BasicBlock, via *core.Edge)
+		walk = func(v ssa.Value, at *ssa.BasicBlock, via *core.Edge) {
+			switch x := v.(type) {
+			case *ssa.Const:
+				nConst++
+				if via != nil && cut[*via] {
+					return
+				}
+				if path := reach(at); path != nil {
+					bad = c.Pos(in) + " via " + p.PathString(path)
+				}
+			case *ssa.Phi:
+				if seen[x] {
+					return
+				}
+				seen[x] = true
+				for i, e := range x.Edges {
+					pred := x.Block().Preds[i]
+					walk(e, pred, &core.Edge{From: pred, To: x.Block()})
+				}
+			case *ssa.Convert:
+				walk(x.X, at, via)
+			case *ssa.ChangeType:
+				walk(x.X, at, via)
+			}
+		}
+		walk(ci.Call.Args[1], ci.Block(), nil)
+	})
+	c.Extra["onInterest_deadline_adds"] = nAdd
+	c.Decide(nAdd > 0 && nConst > 0 && bad == "", "R20.9", "reply-deadline-from-the-interests-own-lifetime", p.Pos(oi.Pos()), fmt.Sprintf("%d Time.Add in onInterest; the constant default reaches it only where Lifetime() is nil", nAdd), "onInterest can give an Interest that carries a lifetime the default lifetime as its reply deadline ("+bad+"): for an Interest with InterestLifetime 0 (or any value the added condition excludes) a reply is still transmitted seconds after that Interest expired")
 }
